@@ -164,6 +164,7 @@ def env_faults(rng, events, op, files, outcome, rule_rel="rule.yaml", input_rel=
                 out.append({"kind": kind, "label": f"{kind}:objdump"})
             out.append({"kind": "rc", "code": 1, "stdout": "none", "stderr": "objdump: in.bin: file format not recognized", "label": "rc1_nostdout:objdump"})
             out.append({"kind": "rc", "code": 1, "stdout": "full", "stderr": "objdump: warning then error", "label": "rc1_fullstdout:objdump"})
+            out.append({"kind": "rc", "code": rng.choice([3, 64, 126, 255]), "stdout": "full", "stderr": "objdump: odd exit status", "label": "rcN_fullstdout:objdump"})
             out.append({"kind": "rc", "code": 2, "stdout": "torn", "tear": rng.random(), "stderr": "objdump: read error", "label": "rc2_tornstdout:objdump"})
             out.append({"kind": "rc", "code": 127, "stdout": "none", "stderr": "sh: objdump: not found", "label": "rc127:objdump"})
             out.append({"kind": "killed", "stdout": "torn", "tear": rng.random(), "label": "killed_torn_midline:objdump"})
